@@ -1,5 +1,5 @@
 """Named monitor sets (so that a replay file can rebuild exactly the monitors that produced it)."""
-from harness.monitors import MLife, MCarry, MDrain, MEscape, MHist, MViews, MFail, MRef, MJoin, MCrash, MTime, MChild
+from harness.monitors import MLife, MCarry, MDrain, MEscape, MHist, MViews, MFail, MRef, MJoin, MCrash, MTime, MChild, MRoute
 
 def base(scenario):
     life = MLife()
@@ -26,7 +26,11 @@ def healthy(scenario):
     life = MLife()
     return [life, MDrain(life), MEscape(), MRef(scenario)]
 
-SETS = {"healthy": healthy, "base": base, "full": full, "crash": crash, "timing": timing, "child": child}
+def route(scenario):
+    life = MLife()
+    return [life, MCarry(), MDrain(life), MEscape(), MRoute(scenario), MRef(scenario)]
+
+SETS = {"route": route, "healthy": healthy, "base": base, "full": full, "crash": crash, "timing": timing, "child": child}
 
 def get(name):
     return SETS[name]
